@@ -132,6 +132,11 @@ func (x *Exec) verifyFunc(fn *ssa.Function, c *FuncContract) (err error) {
 		nret++
 		penv := &SpecEnv{x: x, st: o.st, old: x.entry, names: names, pkg: fn.Pkg.Pkg, results: o.results, sig: fn.Signature, witFr: o.fr}
 		for _, e := range c.Ensures {
+			if strings.HasPrefix(e.Label, "assumed-") {
+				// clause-level trust: used at call sites, not checked here (listed in the evidence)
+				x.assumed[x.unit+" clause "+e.Label] = true
+				continue
+			}
 			x.oblige(o.st, "post", e.Label, penv.evalBool(e.E), fn.Pos())
 		}
 		if c.HasAssign {
